@@ -110,7 +110,7 @@ class BridgeHarness(Harness):
          slave (axil): (aw, w, b_up, ar, r_up/data) ; (wb): (lat, lastreq) ; (csr): (dat_r expected next,)"""
 
     def __init__(self, name, kind, words=(0, 1), strbs=None, conc=False, w_late=True, w_before_aw=False, maxlat=1, err=False,
-                 pipelined=False, cap=None, marks=(1, 2), b2b=False, busy=False, seq=False, **p):
+                 pipelined=False, cap=None, marks=(1, 2), b2b=False, busy=False, seq=False, eager_ready=False, **p):
         self.name, self.kind, self.p = name, kind, p
         self.mw, self.sw = p.get("mw", 32), p.get("sw", p.get("mw", 32))
         self.nl = self.mw//8
@@ -119,6 +119,7 @@ class BridgeHarness(Harness):
         self.conc, self.w_late, self.w_before_aw, self.maxlat, self.err, self.marks = conc, w_late, w_before_aw, maxlat, err, marks
         self.nbytes = p.get("nbytes", 8)
         self.b2b = b2b
+        self.eager_ready = int(eager_ready)   # AXI-Lite master: bready / rready high whenever no response is awaited (default-high readies)
         self.seq = seq          # AHB master: a pipelined next transfer at the following address is the SEQ beat of an INCR burst
         self.busy = busy        # AHB master: transfers are announced as undefined-length INCR bursts and BUSY cycles may follow them
         self.base = p.get("base", 0)
@@ -283,22 +284,24 @@ class BridgeHarness(Harness):
             w = self.wop(env, ch)
             v[M["aw"]["valid"]], v[M["aw"]["addr"]] = 0, (1 << ADRW) - 1
             v[M["w"]["valid"]], v[M["w"]["data"]], v[M["w"]["strb"]] = 0, (1 << self.mw) - 1, (1 << self.nl) - 1
-            v[M["b"]["ready"]] = 0
+            v[M["b"]["ready"]] = self.eager_ready
             if w is not None:
                 op, av, wv, br = w
                 if av:
                     v[M["aw"]["valid"]], v[M["aw"]["addr"]] = 1, self.base + op[0]*self.nl
                 if wv:
                     v[M["w"]["valid"]], v[M["w"]["data"]], v[M["w"]["strb"]] = 1, self.wdata(op), op[1]
-                v[M["b"]["ready"]] = br
+                if ch[0][0][0] == "b":
+                    v[M["b"]["ready"]] = br
             r = self.rop(env, ch)
             v[M["ar"]["valid"]], v[M["ar"]["addr"]] = 0, (1 << ADRW) - 1
-            v[M["r"]["ready"]] = 0
+            v[M["r"]["ready"]] = self.eager_ready
             if r is not None:
                 word, arv, rr = r
                 if arv:
                     v[M["ar"]["valid"]], v[M["ar"]["addr"]] = 1, self.base + word*self.nl
-                v[M["r"]["ready"]] = rr
+                if ch[0][1][0] == "r":
+                    v[M["r"]["ready"]] = rr
         elif self.mk == "ahb":
             c = ch[0][0]
             wr = env[0]
@@ -708,6 +711,17 @@ for (itf, idw, bus, bdw, direction, tier) in [
         strbs_ = (0x0F, 0xF0, 0xFF, 0x10)
     reg(f"add_adapter({itf}{idw}->{bus}{bdw} bus,{direction})", tier, kind="adapter", itf=itf, idw=idw, bus=bus, bdw=bdw, direction=direction,
         mw=mwid, sw=swid, nbytes=16, marks=(1,), strbs=strbs_, w_late=False)
+# default-high response readies: bready / rready are up while the request is offered and while the master is idle
+reg("AXILiteSRAM(16bit)+eager_ready", "quick", kind="axil_sram", mw=16, nbytes=4, strbs=(0b01, 0b11), marks=(1,), conc=True, eager_ready=True)
+reg("AXILiteDownConverter(32->16)+eager_ready", "quick", kind="axil_down", mw=32, sw=16, nbytes=8, strbs=(0b0001, 0b1100, 0b1111), marks=(1,), w_late=False, eager_ready=True)
+reg("AXILiteUpConverter(16->32)+eager_ready", "quick", kind="axil_up", mw=16, sw=32, nbytes=8, strbs=(0b01, 0b11), words=(0, 1), marks=(1,), eager_ready=True)
+reg("AXILite2Wishbone(16bit)+concurrent+eager_ready", "quick", kind="axil2wb", mw=16, nbytes=4, strbs=(0b01, 0b11), marks=(1,), conc=True, eager_ready=True)
+reg("AXILite2Wishbone(16bit)+err_responses+eager_ready", "quick", kind="axil2wb", mw=16, nbytes=4, strbs=(0b11,), marks=(1,), err=True, w_late=False, eager_ready=True)
+reg("AXILite2CSR(32bit)+eager_ready", "quick", kind="axil2csr", mw=32, nbytes=8, strbs=(0b1111,), marks=(1, 2), eager_ready=True)
+reg("add_adapter(axil32->wb32 bus,m2s)+eager_ready", "quick", kind="adapter", itf="axil", idw=32, bus="wb", bdw=32, direction="m2s", mw=32, sw=32, nbytes=16,
+    marks=(1,), strbs=(0, 1, 0b1111, 0b0110), w_late=False, eager_ready=True)
+reg("add_adapter(axil64->wb32 bus,m2s)+eager_ready", "thorough", kind="adapter", itf="axil", idw=64, bus="wb", bdw=32, direction="m2s", mw=64, sw=32, nbytes=16,
+    marks=(1,), strbs=(0x0F, 0xF0, 0xFF, 0x10), w_late=False, eager_ready=True)
 reg("AHB2Wishbone(32bit)", "quick", kind="ahb2wb", mw=32, nbytes=8, marks=(1,))
 reg("AHB2Wishbone(32bit)+busy_cycles", "quick", kind="ahb2wb", mw=32, nbytes=8, marks=(1,), busy=True)
 reg("AHB2Wishbone(32bit)+seq_beats", "quick", kind="ahb2wb", mw=32, nbytes=8, marks=(1,), seq=True)
